@@ -289,3 +289,181 @@ func contradicts(a, b []stableAtom) bool {
 	}
 	return false
 }
+
+// runDeadStore — E16.dead-store: an assignment to a local variable whose value can never be
+// read (every path from it reaches a re-assignment or the function's end first) computes a
+// value and throws it away; when it was meant to update something used earlier (a statement
+// moved above the assignment it depends on) the result is silently stale.
+func runDeadStore(p *Prog, r *Report) {
+	n := 0
+	for _, fn := range p.Funcs {
+		if fn.Body == nil || fn.Lit != nil {
+			continue
+		}
+		info := fn.Info()
+		// locals captured by closures are skipped (their uses are not in this CFG)
+		captured := map[types.Object]bool{}
+		ast.Inspect(fn.Body, func(m ast.Node) bool {
+			if lit, ok := m.(*ast.FuncLit); ok {
+				ast.Inspect(lit, func(z ast.Node) bool {
+					if id, ok := z.(*ast.Ident); ok {
+						if o := info.ObjectOf(id); o != nil {
+							captured[o] = true
+						}
+					}
+					return true
+				})
+				return false
+			}
+			return true
+		})
+		named := map[types.Object]bool{}
+		if fn.Type.Results != nil {
+			for _, f := range fn.Type.Results.List {
+				for _, nm := range f.Names {
+					named[info.ObjectOf(nm)] = true
+				}
+			}
+		}
+		ast.Inspect(fn.Body, func(m ast.Node) bool {
+			if _, isLit := m.(*ast.FuncLit); isLit {
+				return false
+			}
+			as, ok := m.(*ast.AssignStmt)
+			if !ok || as.Tok != token.ASSIGN {
+				return true
+			}
+			for i, l := range as.Lhs {
+				id, ok := ast.Unparen(l).(*ast.Ident)
+				if !ok || id.Name == "_" {
+					continue
+				}
+				o, ok := info.ObjectOf(id).(*types.Var)
+				if !ok || o.IsField() || captured[o] || named[o] || o.Pkg() == nil || o.Parent() == o.Pkg().Scope() {
+					continue
+				}
+				if fn.isParam(o) {
+					continue
+				}
+				// address taken anywhere: aliased
+				aliased := false
+				for _, a := range fn.Assignments(o) {
+					if _, isAddr := a.(*ast.UnaryExpr); isAddr {
+						aliased = true
+					}
+				}
+				if aliased {
+					continue
+				}
+				n++
+				if readReachable(fn, as, o) {
+					continue
+				}
+				rhs := "…"
+				if len(as.Lhs) == len(as.Rhs) {
+					rhs = cmpText(as.Rhs[i])
+				}
+				// x, err = f() where only err is used is common and harmless for x: skip multi-value
+				if len(as.Lhs) != len(as.Rhs) {
+					continue
+				}
+				if why, ok := deadStoreExceptions[fn.Name+"|"+id.Name]; ok {
+					r.Add("E16.dead-store", fn.Name, id.Name+" = "+rhs, p.Pos(as), Excepted, why, true)
+					continue
+				}
+				r.Add("E16.dead-store", fn.Name, id.Name+" = "+rhs, p.Pos(as), Violated,
+					"the value assigned to "+id.Name+" here is never read (every path re-assigns it or leaves the function first): whatever was meant to use it ran before this assignment or not at all", true)
+			}
+			return true
+		})
+	}
+	r.Counts["E16.assignments-examined"] = n
+	r.ExpectMin("E16.assignments-examined", n, 100)
+	r.Clauses = append(r.Clauses, "E16 no plain assignment to a local variable is dead (its value is read on some path before the variable is re-assigned)")
+}
+
+// readReachable: some read of o is reachable from statement st without first crossing a
+// whole re-assignment of o.
+func readReachable(fn *Func, st ast.Node, o types.Object) bool {
+	info := fn.Info()
+	b0 := fn.BlockOf(st)
+	if b0 == nil {
+		return true
+	}
+	c0 := fn.CFGNodeOf(st)
+	// classify a CFG node: reads o? kills o?
+	classify := func(n ast.Node) (reads, kills bool) {
+		lhs := map[*ast.Ident]bool{}
+		ast.Inspect(n, func(z ast.Node) bool {
+			if as, ok := z.(*ast.AssignStmt); ok {
+				for _, l := range as.Lhs {
+					if id, ok := ast.Unparen(l).(*ast.Ident); ok && info.ObjectOf(id) == o {
+						if as.Tok == token.ASSIGN || as.Tok == token.DEFINE {
+							lhs[id] = true
+							kills = true
+						}
+					}
+				}
+			}
+			return true
+		})
+		ast.Inspect(n, func(z ast.Node) bool {
+			if _, isLit := z.(*ast.FuncLit); isLit {
+				return false
+			}
+			if id, ok := z.(*ast.Ident); ok && info.ObjectOf(id) == o && !lhs[id] {
+				reads = true
+			}
+			return true
+		})
+		return
+	}
+	scan := func(nodes []ast.Node) (found, stop bool) {
+		for _, n := range nodes {
+			rd, kl := classify(n)
+			if rd {
+				return true, true
+			}
+			if kl {
+				return false, true
+			}
+		}
+		return false, false
+	}
+	idx := -1
+	for i, n := range b0.Nodes {
+		if n == c0 {
+			idx = i
+		}
+	}
+	if idx < 0 {
+		return true
+	}
+	if found, stop := scan(b0.Nodes[idx+1:]); stop {
+		return found
+	}
+	seen := map[int32]bool{}
+	work := append([]*cfg.Block{}, b0.Succs...)
+	for len(work) > 0 {
+		blk := work[len(work)-1]
+		work = work[:len(work)-1]
+		if seen[blk.Index] {
+			continue
+		}
+		seen[blk.Index] = true
+		// range statements read their operand in the loop head block (Stmt, not Nodes)
+		found, stop := scan(blk.Nodes)
+		if found {
+			return true
+		}
+		if stop {
+			continue
+		}
+		work = append(work, blk.Succs...)
+	}
+	return false
+}
+
+var deadStoreExceptions = map[string]string{
+	"decoder.(*PathDecoder).symbolsForBody|bSchema": "`bSchema = bs.Body` is immediately followed by `bSchema = mergedSchema` (the merged schema always supersedes the static body): a harmless leftover, reviewed",
+}
